@@ -103,8 +103,19 @@ def doc_oracle(ctx: Ctx, n: int) -> None:
                 known = "C09-ellipses-inside-template-tags"
             ctx.fail("E_PROTECTED: code/tag/HTML/URL span changed by the ellipses option", case, {"off": diff[0], "on": diff[1]}, known=known)
             continue
-        again = reformat_text(on, ellipses=True, **o)
-        first = reformat_text(off, ellipses=False, **o)
+        # with smart quotes also on: the two options must not interfere (quotes are decided on the same text)
+        osq = dict(o0, smartquotes=True)
+        off_sq, on_sq = reformat_text(doc, ellipses=False, **osq), reformat_text(doc, ellipses=True, **osq)
+        if squash(on_sq) != squash(off_sq):
+            ctx.fail("E_DOC: with smart quotes on, ellipses on/off differ in more than '...'→'…' and whitespace", case, {"off": off_sq, "on": on_sq})
+            continue
+        # second pass, without wrapping (wrap-induced non-idempotence is C02's subject, not the ellipsis rule's)
+        o1 = dict(o0, semantic=False)
+        on1 = reformat_text(doc, ellipses=True, **o1)
+        again = reformat_text(on1, ellipses=True, **o1)
+        first_off = reformat_text(doc, ellipses=False, **o1)
+        first = reformat_text(first_off, ellipses=False, **o1)
+        on, off = on1, first_off
         if again != on and first == off:
             ctx.fail("E_AGAIN: formatting again with ellipses on changes the document (and it does not with ellipses off)", case,
                      {"once": on, "twice": again})
